@@ -6,13 +6,16 @@ import (
 	"fmt"
 	"go/token"
 	"go/types"
+	"sort"
+	"strings"
 
 	"golang.org/x/tools/go/ssa"
 )
 
 // map heaps: M:<maptype>.dom : Ref -> (Array K Bool)
-//            M:<maptype>.val<leaf> : Ref -> (Array K leafsort)
-//            M:<maptype>.len : Ref -> BV64
+//
+//	M:<maptype>.val<leaf> : Ref -> (Array K leafsort)
+//	M:<maptype>.len : Ref -> BV64
 func (vc *VC) mapKeySort(m *types.Map) (string, bool) {
 	ls := leavesOf(m.Key())
 	if len(ls) != 1 || ls[0].bad {
@@ -451,36 +454,213 @@ func lockID(mu Val) string {
 	return ""
 }
 
-// lockCheck enforces guarded_by declarations: fields declared guarded must be
-// accessed with the guarding mutex of the same object held (write mode for stores).
-func (vc *VC) lockCheck(fr *Frame, st *State, l *Loc, write bool, pos token.Position) {
-	if len(vc.eng.guards) == 0 || l.Kind != locObj || len(l.Path) == 0 {
+// mayAcquire: mutexes (as access paths rooted at a parameter of fn) that fn may lock, directly or
+// through statically known callees of the module (summary computed from the SSA, depth-limited).
+func (e *Engine) mayAcquire(fn *ssa.Function, depth int) map[string]bool {
+	if r, ok := e.acqCache[fn]; ok {
+		return r
+	}
+	res := map[string]bool{}
+	if e.acqCache == nil {
+		e.acqCache = map[*ssa.Function]map[string]bool{}
+	}
+	e.acqCache[fn] = res // recursion guard
+	if fn.Blocks == nil || depth > 4 {
+		return res
+	}
+	isParam := func(root string) bool {
+		for _, p := range fn.Params {
+			if p.Name() == root {
+				return true
+			}
+		}
+		return false
+	}
+	for _, b := range fn.Blocks {
+		for _, in := range b.Instrs {
+			var cc *ssa.CallCommon
+			switch x := in.(type) {
+			case *ssa.Call:
+				cc = &x.Call
+			case *ssa.Defer:
+				cc = &x.Call
+			}
+			if cc == nil || cc.IsInvoke() {
+				continue
+			}
+			callee := cc.StaticCallee()
+			if callee == nil {
+				continue
+			}
+			k := funcKey(callee)
+			if isLockFunc(k) {
+				if strings.HasSuffix(k, "Lock") && !strings.HasSuffix(k, "Unlock") && len(cc.Args) > 0 {
+					if id := accessPath(cc.Args[0]); id != "" && isParam(strings.SplitN(id, ".", 2)[0]) {
+						res[id] = true
+					}
+				}
+				continue
+			}
+			if p := pkgOf(callee); p == nil || !strings.HasPrefix(p.Path(), modPath) {
+				continue
+			}
+			for path := range e.mayAcquire(callee, depth+1) {
+				if t := translatePath(path, callee, cc); t != "" && isParam(strings.SplitN(t, ".", 2)[0]) {
+					res[t] = true
+				}
+			}
+		}
+	}
+	return res
+}
+
+// translatePath rewrites an access path rooted at a parameter of callee into the caller's path of
+// the corresponding argument ("" if the argument has no source-level path).
+func translatePath(path string, callee *ssa.Function, cc *ssa.CallCommon) string {
+	parts := strings.SplitN(path, ".", 2)
+	for i, p := range callee.Params {
+		if p.Name() == parts[0] && i < len(cc.Args) {
+			base := accessPath(cc.Args[i])
+			if base == "" {
+				return ""
+			}
+			if len(parts) == 2 {
+				return base + "." + parts[1]
+			}
+			return base
+		}
+	}
+	return ""
+}
+
+// lockProtocolCheck (functions flagged `lockset`): a callee must not lock a mutex the caller already
+// holds (sync mutexes are not reentrant: self-deadlock, or deadlock as soon as a writer queues up
+// between two read acquisitions), and a callee declared `holds p R|W` needs p held at the call.
+func (vc *VC) lockProtocolCheck(fr *Frame, st *State, c *ssa.CallCommon, callee *ssa.Function, key string, pos token.Position) {
+	if vc.topCon == nil || !vc.topCon.Flags["lockset"] {
 		return
 	}
-	prefix, _, _ := pathPrefix(l.Base, l.Path[:1])
-	g, ok := vc.eng.guards[typeKey(l.Base)+prefix]
-	if !ok {
+	if !(fr.top || (vc.topFn != nil && isNestedIn(fr.fn, vc.topFn))) {
 		return
 	}
-	if !vc.eng.lockScope[funcKey(fr.fn)] {
+	if p := pkgOf(callee); p == nil || !strings.HasPrefix(p.Path(), modPath) {
 		return
 	}
-	id := typeKey(l.Base) + "." + g + "@" + l.Ref
-	mode := st.locks[id]
-	need := 1
-	if write {
-		need = 2
+	// dvid.Serialize(x, ...) gob-encodes x: the encoder calls x.GobEncode() when the type has one
+	if key == modPath+"/dvid.Serialize" && len(c.Args) > 0 {
+		if mi, ok := c.Args[0].(*ssa.MakeInterface); ok {
+			if m := vc.eng.prog.LookupMethod(mi.X.Type(), nil, "GobEncode"); m != nil {
+				cc := &ssa.CallCommon{Value: m, Args: []ssa.Value{mi.X}}
+				vc.lockProtocolCheck(fr, st, cc, m, funcKey(m), pos)
+			}
+		}
 	}
-	goal := "true"
-	if mode < need {
-		goal = "false"
+	var acq []string
+	for path := range vc.eng.mayAcquire(callee, 0) {
+		acq = append(acq, path)
 	}
-	what := "read"
-	if write {
-		what = "write"
+	sort.Strings(acq)
+	for _, path := range acq {
+		t := translatePath(path, callee, c)
+		if t == "" {
+			continue
+		}
+		if m := st.locks[t]; m != 0 {
+			name := fmt.Sprintf("%s#lockset.reentry:%s@%s", funcKey(vc.topFn), t, callee.Name())
+			if n := vc.nameCount[name]; n > 0 {
+				vc.nameCount[name] = n + 1
+				name += fmt.Sprintf("#%d", n+1)
+			} else {
+				vc.nameCount[name] = 1
+			}
+			vc.oblige(st, "lockset", name, fmt.Sprintf("call to %s, which may lock %s, while %s is held here (sync mutexes are not reentrant)", callee.Name(), t, t), pos, "false")
+		}
 	}
-	vc.oblige(st, "lockset", fmt.Sprintf("%s#lockset.%s:%s%s", funcKey(fr.fn), what, typeKey(l.Base), prefix),
-		fmt.Sprintf("%s of %s%s requires %s held (mode %d, have %d)", what, typeKey(l.Base), prefix, g, need, mode), pos, goal)
+	if con := vc.eng.cs.Funcs[key]; con != nil {
+		var hs []string
+		for h := range con.Holds {
+			hs = append(hs, h)
+		}
+		sort.Strings(hs)
+		for _, h := range hs {
+			t := translatePath(h, callee, c)
+			have := 0
+			if t != "" {
+				have = st.locks[t]
+				if have == 3 {
+					have = 0
+				}
+			}
+			goal := "false"
+			if have >= con.Holds[h] {
+				goal = "true"
+			}
+			vc.oblige(st, "lockset", fmt.Sprintf("%s#lockset.holds:%s@%s", funcKey(vc.topFn), h, callee.Name()),
+				fmt.Sprintf("%s requires its caller to hold %s (mode %d); held here: %d", callee.Name(), h, con.Holds[h], have), pos, goal)
+		}
+	}
+}
+
+// guardCheck enforces `guarded Type.field by mu` declarations in functions whose contract carries the
+// flag `lockset`: a guarded field of object p may be read only while p.mu is held (read or write
+// mode) and written only while it is held in write mode. Mutexes and objects are identified by
+// their source-level access paths (see lockCall). Map updates and deletes through a guarded map
+// field count as writes.
+func (vc *VC) guardCheck(fr *Frame, st *State, addr ssa.Value, write bool, pos token.Position) {
+	if len(vc.eng.cs.Guards) == 0 || vc.topCon == nil || !vc.topCon.Flags["lockset"] {
+		return
+	}
+	if !(fr.top || (vc.topFn != nil && isNestedIn(fr.fn, vc.topFn))) {
+		return
+	}
+	for v := addr; ; {
+		fa, ok := v.(*ssa.FieldAddr)
+		if !ok {
+			return
+		}
+		pt, _ := fa.X.Type().Underlying().(*types.Pointer)
+		if pt == nil {
+			return
+		}
+		stt, _ := pt.Elem().Underlying().(*types.Struct)
+		if stt == nil {
+			return
+		}
+		fname := stt.Field(fa.Field).Name()
+		if g, ok := vc.eng.cs.Guards[typeKey(pt.Elem())+"."+fname]; ok {
+			base := accessPath(fa.X)
+			for _, u := range vc.topCon.Unguarded {
+				if u == base {
+					return
+				}
+			}
+			what, need := "read", 1
+			if write {
+				what, need = "write", 2
+			}
+			goal, have := "false", 0
+			if base != "" {
+				have = st.locks[base+"."+g]
+				if have == 3 {
+					have = 0 // held on some paths only
+				}
+				if have >= need {
+					goal = "true"
+				}
+			}
+			n := vc.nameCount["lockset:"+what+fname+base]
+			vc.nameCount["lockset:"+what+fname+base] = n + 1
+			name := fmt.Sprintf("%s#lockset.%s:%s.%s", funcKey(vc.topFn), what, base, fname)
+			if n > 0 {
+				name += fmt.Sprintf("#%d", n+1)
+			}
+			vc.oblige(st, "lockset", name,
+				fmt.Sprintf("%s of %s.%s requires %s.%s held in %s mode (held: %s)", what, base, fname, base, g,
+					map[int]string{1: "read or write", 2: "write"}[need], map[int]string{0: "no", 1: "read", 2: "write"}[have]), pos, goal)
+			return
+		}
+		v = fa.X
+	}
 }
 
 // accessPath: source-level path of a pointer operand: locals, parameters and captured variables
